@@ -413,3 +413,51 @@ Proof. exact dict_unpacks_everywhere. Qed.
 Print Assumptions T02x_dict_unpacks_everywhere.
 
 End Expr.
+
+(* ---------------------------------------------------------------------------------------------- *)
+(* Cls = definition / class rules (RulesClsModel; Part L on MiniPy, Parts O / U / D own fragments). *)
+Require Pyrefact.RulesClsModel Pyrefact.RulesClsProofs.
+Module Cls.
+Import ListNotations.
+Import Pyrefact.MiniPyModel Pyrefact.MiniPyProofs Pyrefact.RulesClsModel Pyrefact.RulesClsProofs.
+
+(* T02k.1  fixes.undefine_unused_variables: an output p' of the rule on p in which every un-assigned
+   assignment `x = e -> e` is dead (x is not live behind it in p', by the liveness analysis lv_block
+   whose loop fixpoints the checker verifies) behaves like p: same outcome, trace and oracle position
+   under every oracle from every state, termination preserved both ways.  uv_ok is evaluated on the
+   real rule's output for every case of the correspondence. *)
+Theorem T02k_undefine_dead_sound :
+  forall n p p', uv_ok n p p' = true -> obs_equiv p p'.
+Proof. exact undefine_dead_sound. Qed.
+Print Assumptions T02k_undefine_dead_sound.
+
+(* T02k.2  the same with a set `out` of variables that are read afterwards (globals) *)
+Theorem T02k_undefine_dead_sound_out :
+  forall n p p' out, ok_block n p p' out [] [] out = true ->
+  forall o st r, runs o st p r ->
+  exists r', runs o st p' r' /\ obs r = obs r' /\
+             (fst r = Normal ->
+              forall x, vmem x out = true -> get (s_env (snd r)) x = get (s_env (snd r')) x).
+Proof. exact undefine_dead_sound_out. Qed.
+Print Assumptions T02k_undefine_dead_sound_out.
+
+(* T02k.3  the rule's own decision on straight-line code (uv_line = _iter_unused_names with
+   code_dependencies_outputs on simple statements; exact correspondence) is behaviour preserving *)
+Theorem T02k_undefine_straight_sound :
+  forall p, forallb simple p = true -> obs_equiv p (uv_line p).
+Proof. exact undefine_straight_sound. Qed.
+Print Assumptions T02k_undefine_straight_sound.
+
+(* T02k.4  un-assigning an assignment that is NOT dead changes the behaviour *)
+Theorem T02k_undefine_live_refuted :
+  exists p p', (exists pre x e post, p = pre ++ SAssign x e :: post /\ p' = pre ++ drop_asg e :: post) /\
+               ~ obs_equiv p p'.
+Proof. exact undefine_live_refuted. Qed.
+Print Assumptions T02k_undefine_live_refuted.
+
+Example T02k_undefine_example :
+  uv_ok 3 [SAssign 0 (RVal (VBool true)); SLoop (HWhile (Unknown 1 [1])) [SAssign 0 (RVar 1); SAssign 1 (RTest (Unknown 2 [0]))] []]
+          [SPass; SLoop (HWhile (Unknown 1 [1])) [SAssign 0 (RVar 1); SAssign 1 (RTest (Unknown 2 [0]))] []] = true.
+Proof. reflexivity. Qed.
+
+End Cls.
